@@ -160,6 +160,7 @@ struct Ledger {
     next_id: usize,
     allocs_ok: u64,
     bulk_errs: u64,
+    refused_header_check: u64,
     allocs_err: u64,
     frees_ok: u64,
     frees_err: u64,
@@ -328,11 +329,23 @@ impl Scenario for PoolScenario {
         if aba_shape {
             cx.cell(format!("{}/aba-shaped", kind.name()));
         }
+        // second template, "drain and refill": thread 1 takes three blocks, gives two back, lets
+        // thread 0 start its first allocation, then drains the list to empty and refills it to the
+        // same depth with the same block on top; thread 0 allocates twice
+        let drain_shape = !aba_shape && cfg.chance(1, 3);
+        if drain_shape {
+            cx.cell(format!("{}/drain-refill-shaped", kind.name()));
+        }
+        let one_class = one_class || drain_shape;
+        let phase1_done = Arc::new(std::sync::atomic::AtomicBool::new(!drain_shape));
+        // ... and thread 1 goes on only once thread 0 is about to allocate, so that the window between
+        // thread 0's head load and its compare-exchange is what the scheduler has to hit
+        let t0_started = Arc::new(std::sync::atomic::AtomicBool::new(!drain_shape));
         let mailbox: Arc<Mutex<Vec<Vec<(SendBlk, usize)>>>> = Arc::new(Mutex::new((0..nthreads).map(|_| vec![]).collect()));
         let handoff_ok = kind != Kind::Fixed; // FixedCapacityAllocation is !Send
         let mut bodies: Vec<e1::Body> = vec![];
         for t in 0..nthreads {
-            let planned = 2 + cfg.below(5);
+            let planned = if drain_shape && t == 1 { 9 + cfg.below(2) } else { 2 + cfg.below(5) };
             let mut ops = cx.src.ops(&format!("ops.t{}", t), planned);
             let mut list = vec![];
             // swarm option: ABA-shaped workload - thread 0 just allocates (it is the one to be overtaken
@@ -340,7 +353,21 @@ impl Scenario for PoolScenario {
             // free(first), which pops two blocks and pushes the first one back
             let mut k = 0usize;
             loop {
-                let o = if aba_shape {
+                let o = if drain_shape && t <= 1 {
+                    let kk = k;
+                    // thread 1: alloc x3, free(2nd), free(1st) | alloc, alloc, free(3rd), free(1st); thread 0: alloc, alloc
+                    const T1: [(u64, u64); 9] = [(0, 0), (0, 0), (0, 0), (2, 1), (2, 0), (0, 0), (0, 0), (2, 0), (2, 0)];
+                    ops.next_with(move |r| {
+                        let rest = [r.below(1 << 20), r.below(1 << 20)];
+                        if t == 0 {
+                            if kk < 2 { [0, 0, 0, rest[1]] } else { [r.below(1 << 20), rest[0], 0, rest[1]] }
+                        } else if kk < 9 {
+                            [T1[kk].0, T1[kk].1, 0, 4 * rest[1] + 1]
+                        } else {
+                            [r.below(1 << 20), rest[0], 0, rest[1]]
+                        }
+                    })
+                } else if aba_shape {
                     let kk = k;
                     ops.next_with(move |r| {
                         let rest = [r.below(1 << 20), r.below(1 << 20), r.below(1 << 20)];
@@ -359,8 +386,18 @@ impl Scenario for PoolScenario {
             let pool = pool.clone_ref();
             let ledger = ledger.clone();
             let mailbox = mailbox.clone();
+            let phase1_done = phase1_done.clone();
+            let t0_started = t0_started.clone();
             bodies.push(Box::new(move |me: usize| {
                 let mut held: Vec<(Blk, usize)> = vec![]; // (block, requested size)
+                if drain_shape && me == 0 {
+                    // wait (as a blocked thread, so the others run) until thread 1 has set the stage
+                    while !phase1_done.load(std::sync::atomic::Ordering::SeqCst) {
+                        e1::blocked(0);
+                    }
+                    t0_started.store(true, std::sync::atomic::Ordering::SeqCst);
+                }
+                let mut op_no = 0usize;
                 let do_free = |b: Blk, req: usize, why: &str, variant: u64| {
                     let (addr, _, _) = b.extent(req);
                     let ord = {
@@ -385,6 +422,13 @@ impl Scenario for PoolScenario {
                     }
                 };
                 for o in &list {
+                    if drain_shape && me == 1 && op_no == 5 {
+                        phase1_done.store(true, std::sync::atomic::Ordering::SeqCst);
+                        while !t0_started.load(std::sync::atomic::Ordering::SeqCst) {
+                            e1::blocked(0);
+                        }
+                    }
+                    op_no += 1;
                     // take anything that was handed to this thread
                     let incoming: Vec<(SendBlk, usize)> = std::mem::take(&mut mailbox.lock().unwrap()[me]);
                     for (b, req) in incoming {
@@ -421,6 +465,12 @@ impl Scenario for PoolScenario {
                                 Err(e) => {
                                     let mut l = ledger.lock().unwrap();
                                     l.allocs_err += 1;
+                                    if e.contains("corrupted") {
+                                        // (not held against the pool: a popper that lost the race reads the header of
+                                        // a block that already belongs to someone else and gives up instead of
+                                        // retrying - a spurious refusal, which the statement does not exclude)
+                                        l.refused_header_check += 1;
+                                    }
                                     let bulk = o[2] % 4 == 3 && matches!(pool, Pool::Secure(_) | Pool::LockFree(_));
                                     l.events.push(format!("t{} alloc({}){} -> Err({})", me, size, if bulk { " [bulk of 2]" } else { "" }, e.chars().take(40).collect::<String>()));
                                     if bulk {
@@ -464,6 +514,10 @@ impl Scenario for PoolScenario {
                             }
                         }
                     }
+                }
+                phase1_done.store(true, std::sync::atomic::Ordering::SeqCst);
+                if me == 0 {
+                    t0_started.store(true, std::sync::atomic::Ordering::SeqCst);
                 }
                 // wind down: free everything still held (blocks left in a mailbox are freed by the main thread)
                 while let Some((b, req)) = held.pop() {
@@ -536,6 +590,7 @@ impl Scenario for PoolScenario {
             cx.probe_n("handoffs", l.handoffs);
             cx.probe_n("blocks_reused", l.reuse_hits);
             cx.probe_n("alloc_refused", l.allocs_err);
+            cx.probe_n("alloc_refused_by_stale_header_check", l.refused_header_check);
             (l.allocs_ok + preseed as u64, l.allocs_err, l.frees_ok + preseed as u64, l.frees_err)
         };
         let site_cnt = format!("{}.counters", kind.name());
@@ -659,6 +714,26 @@ impl Scenario for PoolScenario {
             let (addr, _, _) = b.extent(0);
             ledger.lock().unwrap().take(addr);
             let _ = pool.free(b);
+        }
+        // the fixed-capacity pool owns a fixed number of blocks and every one of them is free now:
+        // with one size in use it must be able to hand out exactly that many again
+        if let (Pool::Fixed(p), true, false) = (&pool, one_class && frees_err == 0, cx.failed()) {
+            let total = p.total_capacity() / 64;
+            let mut got: Vec<FixedCapacityAllocation> = vec![];
+            let mut refusal = String::new();
+            for _ in 0..total + 1 {
+                match p.allocate(size_fixed) {
+                    Ok(b) => got.push(b),
+                    Err(e) => {
+                        refusal = e.to_string();
+                        break;
+                    }
+                }
+            }
+            if got.len() != total {
+                cx.violate("block_lost", &format!("{}.capacity", kind.name()), format!("with every block freed the pool of {} blocks hands out {} ({})", total, got.len(), refusal.chars().take(60).collect::<String>()));
+            }
+            drop(got);
         }
     }
 }
